@@ -2,7 +2,7 @@
 import re
 
 from analysis import (Prov, Guards, fmt, walk, roots, short, comparison, linear, normalised_cmp, must_pass,
-                      path_to, describe_path, find_calls, callee_matches, contains_call, _lin_add, fmt_short, const_int_of)
+                      path_to, describe_path, find_calls, callee_matches, contains_call, _lin_add, fmt_short, const_int_of, field_writes)
 from facts import AnchorError
 from harness import Rule, guarded
 
@@ -406,6 +406,21 @@ def r3(ctx):
     extra = sorted(set(meths) - allowed)
     rule.check(not extra and ("get_mut" in meths or "get" in meths), "handler reaches sessions only through the cache API (%s)" % sorted(meths),
                "uses|api", "handler uses unexpected LruTimeCache methods: %s" % extra)
+    # what is configured is what is used: the two settings are written only by their own setters (with the value given) and by the defaults;
+    # nothing between the builder and Handler::spawn adjusts them (build() does not clamp or derive them from other settings)
+    for fld, setter in (("session_timeout", "session_timeout"), ("session_cache_capacity", "session_cache_capacity")):
+        odd = []
+        n_set = 0
+        for wb, wbi, wline, kind, e in field_writes(facts, r"crate::config::Config$", fld):
+            nm = wb.path
+            if nm.endswith("Clone>::clone") or (kind == "construct" and nm == "crate::config::ConfigBuilder::new"):
+                continue
+            if kind == "assign" and nm == "crate::config::ConfigBuilder::" + setter and roots(e) == {("param", 2, wb.local_name(2))}:
+                n_set += 1
+                continue
+            odd.append("%s (%s %s)" % (nm.split("::")[-1], kind, fmt_short(e)[:60]))
+        rule.check(n_set == 1 and not odd, "Config.%s is written only by its setter (the value given) and the default" % fld, "config|%s" % fld,
+                   "Config.%s is also written by %s: the value the session cache is built with is not the configured one" % (fld, "; ".join(odd) or "nobody (setter not found)"))
     return rule
 
 
